@@ -306,30 +306,49 @@ def step(ctx, main, ev, log, edge=False):
 
 
 def correspondence(ctx):
-    """accept/reject decisions of the real check_value vs the Spec on generated texts (through the Lean-proved contract, evaluated here in Python
-    because the Spec is three lines; the callbacks themselves are exercised by the monitor)"""
+    """accept/reject decisions, the value the model gets and the text left in the box: the real check_value against Spec.Viewer.checkValue executed by the Lean
+    driver on generated texts (what `float(text)` gives and the bounds are handed over as exact rationals; the callbacks themselves are exercised by the monitor)"""
+    from fractions import Fraction
+    import math
+    from common import run_model
     main = new_session()
 
     class W:
         def __init__(self, v):
             self.value, self.title = v, 't'
+
+    def rat(x):
+        f = Fraction(x)
+        return f'{f.numerator}/{f.denominator}'
+    lines, metas = [], []
     for _ in range(ctx.n(2000, 50000)):
         lo = ctx.rng.uniform(-5, 5)
         hi = lo + ctx.rng.uniform(0, 10)
         prev = ctx.rng.uniform(lo, hi)
-        txt = ctx.rng.choice([f'{ctx.rng.uniform(lo - 3, hi + 3):0.3f}', 'abc', '', '1e2', ' 3 ', 'nan', 'inf', f'{lo}', f'{hi}', '0x10', '1,5'])
+        txt = ctx.rng.choice([f'{ctx.rng.uniform(lo - 3, hi + 3):0.3f}', 'abc', '', '1e2', ' 3 ', 'nan', 'inf', '-inf', f'{lo}', f'{hi}', '0x10', '1,5', '1_0', '٣'])
         w = W(txt)
         with contextlib.redirect_stdout(io.StringIO()):
             got = main.check_value(w, lo, hi, prev, '0.3f')
         try:
             v = float(txt)
-            acc = lo <= v <= hi
+            parsed = 'none' if math.isnan(v) else (rat(v) if math.isfinite(v) else ('1' + '0' * 400 + '/1' if v > 0 else '-1' + '0' * 400 + '/1'))
         except ValueError:
-            v, acc = None, False
-        want = (v, txt) if acc else (prev, f'{prev:0.3f}')
+            parsed = 'none'
+        lines.append(f'spec.checkvalue {parsed} {rat(lo)} {rat(hi)} {rat(prev)}')
+        metas.append((txt, lo, hi, prev, got, w.value))
+    outs = run_model(lines)
+    for (txt, lo, hi, prev, got, left), o in zip(metas, outs):
         ctx.count('corr_compared')
-        if (got, w.value) != want:
-            ctx.mismatch('check_value differs from the Spec', {'text': txt, 'min': lo, 'max': hi, 'prev': prev}, want, (got, w.value))
+        parts = o.split(' ')
+        ok = len(parts) == 3
+        if ok:
+            n_, d_ = parts[1].split('/')
+            want_v = Fraction(int(n_), int(d_))
+            want_txt = txt if parts[0] == 'T' else f'{prev:0.3f}'
+            ok = isinstance(got, float) and math.isfinite(got) and Fraction(got) == want_v and left == want_txt
+        if not ok:
+            ctx.mismatch('check_value differs from Spec.Viewer.checkValue (text left in the box, value handed to the model)',
+                         {'text': txt, 'min': lo, 'max': hi, 'prev': prev}, o, [left, repr(got)])
     ctx.sample({'text': '0.333', 'min': 0.01, 'max': 0.5, 'prev': 0.175})
 
 
